@@ -8,6 +8,7 @@ import (
 	"math/rand"
 	"net/http"
 	"net/url"
+	"reflect"
 	"strings"
 
 	"github.com/flamego/flamego"
@@ -21,6 +22,7 @@ type wireWriter struct {
 	sentHdr http.Header // the header map as it was when the status line went out
 	status  int
 	chunks  []string
+	onSent  func() // called when the status line goes out
 }
 
 func (w *wireWriter) Header() http.Header { return w.hdr }
@@ -28,18 +30,35 @@ func (w *wireWriter) WriteHeader(c int) {
 	if w.status == 0 {
 		w.status = c
 		w.sentHdr = w.hdr.Clone()
+		if w.onSent != nil {
+			w.onSent()
+		}
 	}
 }
 func (w *wireWriter) Write(b []byte) (int, error) {
 	if w.status == 0 {
 		w.status = 200
 		w.sentHdr = w.hdr.Clone()
+		if w.onSent != nil {
+			w.onSent()
+		}
 	}
 	w.chunks = append(w.chunks, string(b))
 	return len(b), nil
 }
 
 type unresolvable struct{ _ int }
+
+type subKey struct{}
+
+// a user-supplied ReturnHandler: its own status and a marker body, whatever was returned
+func customRH(k int) flamego.ReturnHandler {
+	return func(c flamego.Context, vals []reflect.Value) {
+		w := c.ResponseWriter()
+		w.WriteHeader(290 + k)
+		_, _ = w.Write([]byte{'R', byte('0' + k)})
+	}
+}
 
 type customErr struct{ msg string }
 
@@ -133,6 +152,19 @@ func scriptedHandler(cr **chainRun, i int, h *Sx) flamego.Handler {
 				r.log(T("nr", I(i)))
 			case "cancel":
 				r.cancel()
+			case "maprh":
+				k := a.Args()[0].Int()
+				c.Map(customRH(k))
+			case "sub":
+				// a sub-request through the same application: a separate request whose events are not ours
+				saved := *cr
+				*cr = &chainRun{cancel: func() {}}
+				func() {
+					defer func() { _ = recover() }()
+					c.Request().Context().Value(subKey{}).(*flamego.Flame).ServeHTTP(&wireWriter{hdr: http.Header{}},
+						(&http.Request{Method: "GET", URL: &url.URL{Path: "/other"}, Header: http.Header{}, Proto: "HTTP/1.1"}).WithContext(gocontext.Background()))
+				}()
+				*cr = saved
 			case "panic":
 				v := a.Args()[0].Int()
 				if v == 3 {
@@ -239,6 +271,9 @@ func runChain(in *Sx) *Sx {
 	if a := in.Field("action").Args()[0]; a.IsL {
 		f.Action(scriptedHandler(&cur, idx, a))
 	}
+	if rh := in.Field("apprh"); rh != nil && rh.Args()[0].Atom != "none" {
+		f.Map(customRH(rh.Args()[0].Int()))
+	}
 	if dev {
 		flamego.SetEnv(flamego.EnvTypeDev)
 	} else {
@@ -257,8 +292,9 @@ func runChain(in *Sx) *Sx {
 		if head {
 			method = "HEAD"
 		}
-		req := (&http.Request{Method: method, URL: &url.URL{Path: path + "/p"}, Header: http.Header{}, Proto: "HTTP/1.1"}).WithContext(ctx)
-		w := &wireWriter{hdr: http.Header{}}
+		req := (&http.Request{Method: method, URL: &url.URL{Path: path + "/p"}, Header: http.Header{}, Proto: "HTTP/1.1"}).WithContext(gocontext.WithValue(ctx, subKey{}, f))
+		run := cur
+		w := &wireWriter{hdr: http.Header{}, onSent: func() { run.log(T("sent")) }}
 		escaped := A("none")
 		func() {
 			defer func() {
@@ -307,6 +343,8 @@ func runChain(in *Sx) *Sx {
 
 var chainCodes = []int{200, 201, 204, 301, 404, 418, 500}
 
+var genExtras = false // C03/C14: also sub-requests and request-scoped ReturnHandlers
+
 func genActs(rng *rand.Rand, maxNext int, allowPanic, allowCancel bool) []*Sx {
 	var acts []*Sx
 	nexts := 0
@@ -328,6 +366,14 @@ func genActs(rng *rand.Rand, maxNext int, allowPanic, allowCancel bool) []*Sx {
 		case r < 92:
 			if allowPanic {
 				acts = append(acts, T("panic", I(1+rng.Intn(7))))
+			}
+		case r < 96:
+			if genExtras {
+				acts = append(acts, T("sub"))
+			}
+		default:
+			if genExtras {
+				acts = append(acts, T("maprh", I(rng.Intn(3))))
 			}
 		}
 	}
@@ -390,11 +436,17 @@ func chainInput(rng *rand.Rand, mw, route []*Sx, groups [][]*Sx, action *Sx, rep
 	for _, g := range groups {
 		gs = append(gs, T("g", g...))
 	}
+	apprh := A("none")
+	if genExtras && rng.Intn(8) == 0 {
+		apprh = I(3 + rng.Intn(2))
+	}
 	return T("in", T("head", B(rng.Intn(5) == 0)), T("dev", B(rng.Intn(2) == 0)), T("mw", mw...), T("groups", gs...),
-		T("route", route...), T("action", action), T("reps", I(reps)))
+		T("route", route...), T("action", action), T("reps", I(reps)), T("apprh", apprh))
 }
 
 func genC03(rng *rand.Rand, n int, tier string, emit func(*Sx)) {
+	genExtras = true
+	defer func() { genExtras = false }()
 	for i := 0; i < n; i++ {
 		mk := func(k int) []*Sx {
 			var hs []*Sx
@@ -418,6 +470,8 @@ func genC03(rng *rand.Rand, n int, tier string, emit func(*Sx)) {
 }
 
 func genC14(rng *rand.Rand, n int, tier string, emit func(*Sx)) {
+	genExtras = true
+	defer func() { genExtras = false }()
 	for i := 0; i < n; i++ {
 		mk := func(k int, rich bool) []*Sx {
 			var hs []*Sx
